@@ -1,7 +1,7 @@
 #!/usr/bin/env python3
 """Give every agent-written driver module its own namespace Driver.<Area> (all modules are linked into one executable)."""
 import os, re, sys
-D = "/verif/lean/Driver"
+D = os.path.join(os.path.dirname(os.path.dirname(os.path.abspath(__file__))), "lean", "Driver")
 SKIP = {"Common.lean", "Main.lean", "Integer.lean", "IntegerTable.lean", "IntegerAliasTable.lean"}
 for f in sorted(os.listdir(D)):
     if not f.endswith(".lean") or f in SKIP:
